@@ -1,5 +1,5 @@
 CONSTANT T = 4
-CONSTANT Bnds = {0, 1, 3, 4}
+CONSTANT Bnds = {0, 2, 4}
 CONSTANT MaxN = 4
 CONSTANT Width3 = TRUE
 CONSTANT BigReps = TRUE
